@@ -779,6 +779,21 @@ def check_setters(case, ctx):
             ctx.label("op:list-rejected")
     # the experiment still satisfies its invariant
     ctx.check(schedules_ok(e.schedules, {k: len(getattr(e, ATTR[k])) for k in KINDS}) == "accept", "experiment_invariant")
+    # a list the constructor created itself (argument omitted) belongs to THAT experiment: growing it in place through the
+    # public property, then building another experiment that omits the same argument - the second one starts empty and
+    # rejects a schedule that names the first one's object
+    fx = _fixed()["obj"]
+    for k in ("gate", "mprocess"):
+        e1 = Experiment(schedules=[], states=[fx["state"]], povms=[fx["povm"]])
+        getattr(e1, ATTR[k]).append(fx[k])
+        e1.schedules = [[("state", 0), (k, 0), ("povm", 0)]]
+        got2, e2 = _verdict_of(lambda: Experiment(schedules=[], states=[fx["state"]], povms=[fx["povm"]]))
+        if ctx.check(got2 == "accept", "second_experiment:constructed", got2):
+            ctx.check(len(getattr(e2, ATTR[k])) == 0 and e2.num_qoperations(k) == 0, "second_experiment:omitted_list_is_empty",
+                      f"{k}: {len(getattr(e2, ATTR[k]))} object(s) in an experiment built without any")
+        got3, _ = _verdict_of(lambda: Experiment(schedules=[[("state", 0), (k, 0), ("povm", 0)]], states=[fx["state"]],
+                                                 povms=[fx["povm"]]))
+        _compare(ctx, "item", got3, f"second experiment without {k}s, schedule names {k} 0")
     ctx.nontrivial(n_rej >= 1 and n_acc >= 1)
 
 
